@@ -8,6 +8,8 @@ sensitivity  every patch in /verif/mutants is applied to a scratch worktree of /
              /verif; GRAAF_SRC / VERIF_WS redirect the build there), the quick check of its property
              must exit 1 with a VIOLATION whose replay file reproduces; the unmodified tree must stay
              silent. Evidence, replays and logs of these runs go to a scratch directory.
+benign       behaviour-preserving rewrites by independent sub-agents (/verif/benign): every listed check
+             must stay silent.
 fidelity     the guard-off build (real std threads, real available_parallelism under taskset) must
              agree with the simulated results for the same CPU count (validates the seam stub).
 """
@@ -147,6 +149,46 @@ def sensitivity(only=None, with_suite=False):
     return not missed
 
 
+def benign(only=None):
+    """Behaviour-preserving rewrites written by independent sub-agents (benign/<name>/patch.diff): every
+    check listed in their meta.json must stay silent (exit 0, no VIOLATION line)."""
+    tmp = tempfile.mkdtemp(prefix="verif_benign_")
+    ok = True
+    wt = None
+    try:
+        wt = _scratch_worktree(tmp)
+        env = dict(os.environ)
+        env.update({"GRAAF_SRC": os.path.join(wt, "src"), "VERIF_WS": os.path.join(tmp, "ws"),
+                    "VERIF_EVIDENCE_DIR": os.path.join(tmp, "evidence"), "VERIF_REPLAY_DIR": os.path.join(tmp, "replays"),
+                    "VERIF_LOG_DIR": os.path.join(tmp, "logs")})
+        for patch in sorted(glob.glob(os.path.join(D.ROOT, "benign", "*", "patch.diff"))):
+            name = os.path.basename(os.path.dirname(patch))
+            if only and only != name:
+                continue
+            meta = json.load(open(os.path.join(os.path.dirname(patch), "meta.json")))
+            subprocess.check_call(["git", "-C", wt, "checkout", "-q", "--", "."])
+            a = subprocess.run(["git", "-C", wt, "apply", patch], stderr=subprocess.PIPE, text=True)
+            if a.returncode != 0:
+                D.log("BENIGN %s: patch does not apply: %s" % (name, a.stderr.strip()[:200]))
+                ok = False
+                continue
+            for pid in meta["checks"]:
+                t0 = time.time()
+                r = subprocess.run([os.path.join(D.ROOT, "check"), pid, "quick"], env=env, stdout=subprocess.PIPE,
+                                   stderr=subprocess.STDOUT, text=True)
+                bad = [ln for ln in r.stdout.splitlines() if ln.startswith(("VIOLATION", "HARNESS-ERROR")) or ln.strip().startswith("signature:")]
+                if r.returncode == 0 and not bad:
+                    D.log("BENIGN %s %s: silent, as required (%.0fs)" % (name, pid, time.time() - t0))
+                else:
+                    D.log("BENIGN %s %s: ALARM (exit %d) %s" % (name, pid, r.returncode, " | ".join(bad)[:600]))
+                    ok = False
+    finally:
+        if wt:
+            subprocess.run(["git", "-C", D.REPO, "worktree", "remove", "--force", wt], stdout=subprocess.DEVNULL, stderr=subprocess.DEVNULL)
+        shutil.rmtree(tmp, ignore_errors=True)
+    return ok
+
+
 def fidelity():
     ws = D.workspace()
     binary = D.build_sched(ws, quiet=True)
@@ -183,6 +225,8 @@ def main(argv):
         ok &= determinism()
     if what in ("fidelity", "all"):
         ok &= fidelity()
+    if what in ("benign", "all"):
+        ok &= benign(argv[1] if len(argv) > 1 else None)
     if what in ("sensitivity", "all"):
         only = argv[1] if len(argv) > 1 and not argv[1].startswith("--") else None
         ok &= sensitivity(only, "--with-suite" in argv)
